@@ -364,7 +364,7 @@ func VerifC02_Dormbr() {
 	if verifChoose("trans", 0, 1) == 1 {
 		trans = blas.Trans
 	}
-	k := verifChoose("k", 0, maxN+1)
+	k := verifChoose("k", 0, verifParam("ormbk", maxN+1)) // k > nq and k == nq select the same regime
 	minnqk := verifC02min(nq, k)
 	var lda int
 	var a []float64
@@ -381,7 +381,7 @@ func VerifC02_Dormbr() {
 	c := verifC02mat("c", m, n, ldc)
 	a0, tau0, c0 := verifC02clone(a), verifC02clone(tau), verifC02clone(c)
 	lwork := verifC02max(1, nw) // documented minimum or generous
-	if verifChoose("lwork", 0, 1) == 1 {
+	if verifParam("ormblw", 1) == 1 && verifChoose("lwork", 0, 1) == 1 {
 		lwork = 4*lwork + 7
 	}
 	work := verifFloats("work", lwork)
